@@ -81,7 +81,7 @@ class C01(Harness):
                              'nesting': 3}}
 
     def budget(self, tier):
-        return 170 if tier == 'quick' else 1500
+        return 240 if tier == 'quick' else 1500
 
     def units(self, tier):
         return shape_units(tier)
